@@ -96,22 +96,30 @@ class Normalizer:
     def norm(self, t):
         if not isinstance(t, tuple) or not t:
             return t
-        if t in self.memo:
-            return self.memo[t]
+        # memo by identity: terms are DAGs with heavy sharing, and hashing a nested tuple walks it as a tree every time
+        hit = self.memo.get(id(t))
+        if hit is not None and hit[0] is t:
+            return hit[1]
+        r = self._norm(t)
+        self.memo[id(t)] = (t, r)
+        if r is not t:
+            self.memo[id(r)] = (r, r)
+        return r
+
+    def _norm(self, t):
         if not isinstance(t[0], str):
             r = tuple(self.norm(x) if isinstance(x, tuple) else x for x in t)
-            self.memo[t] = r
             return r
         k = t[0]
         if k in ("var", "wild", "lit", "param", "def", "loopvar", "or", "range", "other") and k != "or":
             # pattern descriptors and leaves are left alone (descriptors never contain terms)
             if k in ("var", "wild", "range", "other"):
-                self.memo[t] = t
                 return t
         r = tuple(self.norm(x) if isinstance(x, tuple) else x for x in t)
-        r = self.rewrite(r)
-        self.memo[t] = r
-        return r
+        if all(a is b for a, b in zip(r, t)):
+            r = t                 # unchanged children: keep the shared object
+        r2 = self.rewrite(r)
+        return r2
 
     def rewrite(self, t):
         k = t[0]
